@@ -18,7 +18,7 @@
 (*  block table.                                                             *)
 (* BROKEN is printed when the recording itself is inconsistent (a sweep that *)
 (* skips an address): a tool error.                                          *)
-EXTENDS Registration, TraceBase
+EXTENDS Registration, TraceBase, SequencesExt
 
 Blocks == ndJsonDeserialize(IOEnv.BLOCKS)
 NB == Len(Blocks)
@@ -52,21 +52,51 @@ RECURSIVE FirstBlock(_, _)
 FirstBlock(h, k) == IF k > NB THEN 0
                     ELSE IF BlockTab[k][1] <= h /\ h <= BlockTab[k][2] THEN k
                     ELSE FirstBlock(h, k + 1)
-TableCountry(h) == LET k == FirstBlock(h, 1) IN IF k = 0 THEN "" ELSE BlockTab[k][3]
-TableCountryChars(h) == LET k == FirstBlock(h, 1) IN IF k = 0 THEN <<>> ELSE BlockTab[k][4]
-
-Addr32(ev) == <<ev.hi16, ev.lo16>>
+(* The first matching block is constant between two consecutive block       *)
+(* bounds: SegTab lists <<first address of the segment, FirstBlock there>>  *)
+(* in address order (computed once), BlockOf finds the segment by bisection.*)
+Breaks == SetToSortSeq({0} \cup {BlockTab[k][1] : k \in 1..NB} \cup {BlockTab[k][2] + 1 : k \in 1..NB},
+                       LAMBDA a, b : a < b)
+RECURSIVE BuildSeg(_)
+BuildSeg(i) == IF i > Len(Breaks) THEN <<>>
+               ELSE IF Breaks[i] < 0 THEN BuildSeg(i + 1)
+               ELSE << <<Breaks[i], FirstBlock(Breaks[i], 1)>> >> \o BuildSeg(i + 1)
+SegTab == BuildSeg(1)
+NSeg == Len(SegTab)
+RECURSIVE Bisect(_, _, _)
+Bisect(h, a, b) ==      \* largest i in a..b with SegTab[i][1] <= h  (SegTab[a][1] <= h)
+  IF a = b THEN a
+  ELSE LET m == (a + b + 1) \div 2 IN
+       IF SegTab[m][1] <= h THEN Bisect(h, m, b) ELSE Bisect(h, a, m - 1)
+BlockOf(h) == IF h < 0 THEN 0 ELSE SegTab[Bisect(h, 1, NSeg)][2]
+TableCountry(h) == LET k == BlockOf(h) IN IF k = 0 THEN "" ELSE BlockTab[k][3]
+TableCountryChars(h) == LET k == BlockOf(h) IN IF k = 0 THEN <<>> ELSE BlockTab[k][4]
+(* the bisection agrees with the scan of the table at and around every bound *)
+ASSUME SegOK == \A i \in 1..NSeg : \A d \in {-1, 0, 1} :
+                  LET h == SegTab[i][1] + d IN h >= 0 => BlockOf(h) = FirstBlock(h, 1)
 
 (* ---- verdict ---- *)
+CountryOK(ev) == ev.reg # <<>> /\ MarkBelongsTo(ev.reg, TableCountry(ev.h))
 Ok(ev, prev) ==
   CASE ev.e = "t" ->
          /\ ev.out \in {"some", "none"}
-         /\ ev.out = "some" => ev.reg # <<>> /\ MarkBelongsTo(ev.reg, TableCountry(ev.h))
+         /\ ev.out = "some" => CountryOK(ev)
+         /\ Has(ev, "ai") => ev.ai.out # "panic"
     [] ev.e = "run" -> ev.out = "none"
     [] ev.e = "oor" -> ev.out \in {"some", "none"}
-    [] ev.e = "s" -> prev = <<>> \/ Less(prev, ev.reg)
+    [] ev.e = "s" -> /\ prev = <<>> \/ Less(prev, ev.reg)
+                     /\ CountryOK(ev)
     [] ev.e \in {"begin", "end"} -> TRUE
     [] OTHER -> FALSE
+
+(* which clause of the property a rejected event breaks (for the report)     *)
+Why(ev, prev) ==
+  IF ev.e \notin {"t", "run", "oor", "s", "begin", "end"} THEN "malformed"
+  ELSE IF ev.e \in {"t", "run", "oor"} /\ ev.out \notin {"some", "none"} THEN "total"
+  ELSE IF ev.e = "t" /\ Has(ev, "ai") /\ ev.ai.out = "panic" THEN "total"
+  ELSE IF ev.e = "run" THEN "malformed"
+  ELSE IF ev.e = "s" /\ ~(prev = <<>> \/ Less(prev, ev.reg)) THEN "injective"
+  ELSE "country"
 
 (* ---- conformance to the allocation schemes (not a verdict) ---- *)
 AiOk(ev) ==
@@ -80,6 +110,7 @@ Conforms(ev) ==
          /\ AiOk(ev)
     [] ev.e = "run" -> \A h \in ev.lo..ev.hi : RegOf(h) = NoReg
     [] ev.e = "oor" -> ev.out = "none"
+    [] ev.e = "s" -> AddrOf(ev.reg) = ev.h
     [] OTHER -> TRUE
 
 (* ---- the recording is a complete sweep where it says so ---- *)
@@ -105,6 +136,6 @@ Next ==
                  [] OTHER -> nxt
      /\ IF Recorded(ev, nxt) THEN TRUE ELSE PrintT(<<"BROKEN", l>>)
      /\ IF Ok(ev, prev) THEN (IF Conforms(ev) THEN TRUE ELSE PrintT(<<"DEVIATION", l>>))
-        ELSE PrintT(<<"REJECT", l>>)
+        ELSE PrintT(<<"REJECT", l, Why(ev, prev)>>)
 Spec == Init /\ [][Next]_vars
 =============================================================================
